@@ -248,7 +248,7 @@ def shard_list(tier, seed):
             template[h] = rnd.randrange(len(R.LEAVES))
         for h in rnd.sample(slots, 2):
             template[h] = None
-        out.append({'doc': rnd.choice(['int', 'pair', 'dict']), 'template': template, 'depth': 3})
+        out.append({'doc': rnd.choice(['int', 'pair'] if quick else ['int', 'pair', 'dict']), 'template': template, 'depth': 3})
         made += 1
     if not quick:
         # every scoping root x every kind of its first child, the following slot symbolic
